@@ -225,6 +225,7 @@ static void dcstate(void) {
   sdk_out("DCSTATE started=%d srpc=%d registered=%d sendbuf=%d recvbuf=%d conn=%d", devconn->started, devconn->srpc != NULL,
           devconn->registered, (int)devconn->esp_send_buffer_len, (int)devconn->recvbuff_size, sdk_conn_open);
 }
+static char verif_email[SUPLA_EMAIL_MAXSIZE] = ""; /* `email <text>` before init: the configured account e-mail */
 static int verif_rebooted = 0; /* this process continues a case after a `reboot` op: flash content was kept */
 static void device_init(int registered) {
   memset(&supla_esp_cfg, 0, sizeof(supla_esp_cfg));
@@ -242,7 +243,7 @@ static void device_init(int registered) {
   for (int i = 0; i < SUPLA_GUID_SIZE; i++) supla_esp_cfg.GUID[i] = 0x10 + i;
   for (int i = 0; i < SUPLA_AUTHKEY_SIZE; i++) supla_esp_cfg.AuthKey[i] = 0x40 + i;
   strcpy(supla_esp_cfg.Server, "srv.example");
-  strcpy(supla_esp_cfg.Email, "user@example.org");
+  strcpy(supla_esp_cfg.Email, verif_email[0] ? verif_email : "user@example.org");
   strcpy(supla_esp_cfg.WIFI_SSID, "net");
   strcpy(supla_esp_cfg.WIFI_PWD, "secretwifi");
   for (int i = 0; i < RS_MAX_COUNT; i++) supla_esp_cfg.AdditionalTimeMargin[i] = -1;
@@ -317,6 +318,11 @@ int main(int argc, char **argv) {
         sdk_boot_cnt = (uint32_t)strtoul(ops_tok[1], 0, 10);
       } else if (!strcmp(op, "board") && ops_ntok >= 2) {
         if (board_preset(ops_tok[1], ops_ntok > 2 ? atoi(ops_tok[2]) : 0)) sdk_out("BADOP");
+      } else if (!strcmp(op, "inpin") && ops_ntok == 3 && !inited) { /* input i of the board sits on another GPIO (0..15) */
+        int i = atoi(ops_tok[1]);
+        if (i >= 0 && i < 7) fw_board.inputs[i].gpio = atoi(ops_tok[2]);
+      } else if (!strcmp(op, "email") && ops_ntok == 2 && strlen(ops_tok[1]) < SUPLA_EMAIL_MAXSIZE) {
+        strcpy(verif_email, ops_tok[1]);
       } else if (!strcmp(op, "motor") && ops_ntok == 5) {
         fw_board.motor_model = atoi(ops_tok[1]); fw_board.motor_startup_ms = atoi(ops_tok[2]);
         fw_board.motor_up_ms = atoi(ops_tok[3]); fw_board.motor_down_ms = atoi(ops_tok[4]);
